@@ -846,14 +846,14 @@ def _option_cases(rnd, tier):
 # and the stride of the thorough sweep (1: every template)
 TEMPLATE_SWEEPS = [
     ("toll_below_two", "one_matvec", {"force_memory_hierarchy_order": False}, 90, 6, 1),
-    ("two_tolls_below_two", "one_matvec", {"force_memory_hierarchy_order": False}, 90, 3, 1),
-    ("loose_mid", "one_matmul", {}, 66, 3, 2),
+    ("two_tolls_below_two", "one_matvec", {"force_memory_hierarchy_order": False}, 90, 3, 2),
+    ("loose_mid", "one_matmul", {}, 90, 3, 3),
     ("three_levels", "one_matvec", {}, 66, 2, 3),
-    ("may_toll_below_two", "one_matvec", {"force_memory_hierarchy_order": False}, 90, 0, 3),
-    ("toll_below_two_keep", "one_matvec", {"force_memory_hierarchy_order": False}, 90, 0, 3),
-    ("toll_below_two", "one_matvec", {"force_memory_hierarchy_order": False, "_can_lower_outermost_memory": True}, 90, 0, 4),
+    ("may_toll_below_two", "one_matvec", {"force_memory_hierarchy_order": False}, 720, 0, 16),
+    ("toll_below_two_keep", "one_matvec", {"force_memory_hierarchy_order": False}, 222, 0, 8),
+    ("toll_below_two", "one_matvec", {"force_memory_hierarchy_order": False, "_can_lower_outermost_memory": True}, 600, 0, 60),  # ~10 s per template
 ]
-TEMPLATE_LIMIT = 600  # a sweep stops at the first index for which nothing is returned, at the latest here
+TEMPLATE_LIMIT = 800  # a sweep stops at the first index for which nothing is returned, at the latest here
 
 
 def _template_indices(rnd, tier, n_est, n_quick, k):
@@ -1146,14 +1146,14 @@ def _sweep(p, tier, n_random, n_mapper):
         "two-Einsum mappings and accept the three good ones; every Einsum mapping of every row returned by the mapper is inspected, and its Toll read actions are compared with "
         f"the walk of that returned mapping). This run: {st['holder']} two-Einsum mappings, {st['core']} core + {st['random']} random model mappings ({st['rejected']} generated "
         f"mappings rejected by evaluate_mapping with and without the Toll and not counted), {st['nonzero_required'] + st['zero_required']} (Toll, tensor) read counts compared "
-        f"({st['nonzero_required']} non-zero, {st['zero_required']} zero), {st['mapper_calls']} mapper calls returning {st['mapper_rows']} mappings with "
-        f"{st['mapper_reads_compared']} (Einsum, Toll, tensor) read counts compared ({st['option_calls']} of the calls with mapper settings that change the order of storage / Toll nodes: "
+        f"({st['nonzero_required']} non-zero, {st['zero_required']} zero), {st['mapper_calls']} + {st['option_calls']} mapper calls returning {st['mapper_rows']} mappings with "
+        f"{st['mapper_reads_compared']} (Einsum, Toll, tensor) read counts compared (the {st['option_calls']} further calls with mapper settings that change the order of storage / Toll nodes: "
         "force_memory_hierarchy_order off (globally / per component), prioritize_reuse_of_unfused_tensors, _let_non_intermediate_tensors_respawn_in_backing_storage, explore_loop_orders off, "
         "_timeloop_style_even, max_fused_loops 0" + ("" if tier == "quick" else ", _can_lower_outermost_memory") + "). "
         f"TEMPLATE LEVEL: {st['template_calls']} single pmapping templates (spec.mapper._only_output_pmapping_with_index = i, so that a template cannot lose against a better one) of a 2x2(x2) "
         "matvec / matmul on architectures with a Toll below two Memories (Main > Mid > Toll(s) > Buf, Main > Toll > Mid > Toll > Buf), mostly with force_memory_hierarchy_order off, "
         f"returning {st['template_rows']} mappings with {st['template_reads_compared']} (Toll, tensor) read counts compared"
-        + (" (every template of two sweeps, every 2nd-4th of five more)" if tier != "quick" else " (a seeded sample of the templates)") + ". "
+        + (" (every template of one sweep, every 2nd to 60th of six more)" if tier != "quick" else " (a seeded sample of the templates)") + ". "
         "In EVERY mapping returned by the mapper, additionally: every Toll node of a tensor sits below all holders of that tensor that are above the Toll in the architecture and above all "
         "holders of it that are below, and a Toll declared {keep: All} has a node for every tensor that a Memory above it holds. "
         f"excluded: {st['outside_family']} (Toll, tensor) read counts whose loop nest above the holder below the Toll has an uneven tile together with another loop over the same "
@@ -1168,7 +1168,7 @@ def _sweep(p, tier, n_random, n_mapper):
                   "1-2 Tolls (one; two stacked; Toll-Memory-Toll), per-tensor holder choice and position, directions up/down/up_and_down as string or per-tensor dictionary, "
                   "values-per-action given as values_per_action / bits_per_action on the component or on the action or left at the default, bits per value 4/8/16; "
                   "mapper: 2-3 Einsum chains with bounds <= " + ("3" if tier == "quick" else "4") + ", no spatial fan-out; mapper settings from a list of 10 combinations; template level: "
-                  "single Einsum, all bounds 2, " + ("a seeded sample of 14 template indices over 4 (architecture, settings) pairs" if tier == "quick" else "every template of 2 (architecture, settings) pairs and every 2nd-4th of 5 more")),
+                  "single Einsum, all bounds 2, " + ("a seeded sample of 14 template indices over 4 (architecture, settings) pairs" if tier == "quick" else "every template of one (architecture, settings) pair and every 2nd to 60th of 6 more")),
         "exhaustive": True, "samples": samples,
         "assumptions": ["single-variable rank projections only (tiles are equal or disjoint, no sliding windows)", "no spatial fan-out between the Memories"],
     }
